@@ -37,6 +37,7 @@ type c15Req struct {
 	Path    string          `json:"path"`
 	Body    json.RawMessage `json:"body,omitempty"`
 	PauseUs int             `json:"pause_us,omitempty"`
+	Raw     string          `json:"raw,omitempty"` // raw request body (blob upload)
 }
 
 type c15Case struct {
@@ -175,6 +176,8 @@ func c15Do(client *http.Client, base string, r c15Req) (int, []byte, error) {
 	var body io.Reader
 	if len(r.Body) > 0 {
 		body = bytes.NewReader(r.Body)
+	} else if r.Raw != "" {
+		body = strings.NewReader(r.Raw)
 	}
 	req, err := http.NewRequest(r.Method, base+r.Path, body)
 	if err != nil {
